@@ -175,6 +175,55 @@ impl Prop for C10 {
     fn cases(tier: Tier) -> u64 {
         tier.pick(100_000, 1_000_000)
     }
+    fn fixed_cases(_tier: Tier) -> Vec<Case> {
+        // scale: sections with thousands of items (legal up to 65535 per section), hundreds of chromosomes
+        let mut v = vec![];
+        for (big_endian, compress) in [(false, false), (true, true)] {
+            let mut blocks: Vec<(u32, WigBlock)> = vec![];
+            let mut pos = 0u32;
+            let mut bed = |n: u32, pos: &mut u32| {
+                let mut items = vec![];
+                for i in 0..n {
+                    items.push(Item { s: *pos, e: *pos + 2, v: (i % 977) as f32 / 8.0 });
+                    *pos += 3;
+                }
+                WigBlock::Bed(items)
+            };
+            blocks.push((0, bed(6000, &mut pos)));
+            blocks.push((0, bed(65535, &mut pos)));
+            let var: Vec<(u32, f32)> = (0..6000u32).map(|i| (pos + i * 4, (i % 13) as f32)).collect();
+            pos += 6000 * 4;
+            blocks.push((0, WigBlock::Var { span: 2, items: var }));
+            blocks.push((0, WigBlock::Fixed { start: pos, step: 3, span: 2, vals: (0..65535u32).map(|i| (i % 31) as f32 - 4.0).collect() }));
+            pos += 65535 * 3;
+            let mut chroms = vec![EncChrom { name: "big".into(), size: pos + 10, id: 0 }];
+            for c in 1..300u32 {
+                chroms.push(EncChrom { name: format!("c{:03}", c), size: 1000, id: c });
+                blocks.push((c, WigBlock::Bed(vec![Item { s: 10, e: 20 + c, v: c as f32 }])));
+            }
+            v.push(Case {
+                chroms,
+                content: Content::Wig { blocks },
+                params: EncParams {
+                    big_endian,
+                    compress,
+                    version: 4,
+                    chrom_block: 256,
+                    rtree_block: 256,
+                    items_per_slot: 65535,
+                    placement: Placement::LevelOrder,
+                    pad: 0,
+                    nonleaf_last: false,
+                    zooms: vec![],
+                    count_u32: false,
+                    end_magic: true,
+                    zoom_count_prefix: false,
+                    no_summary: false,
+                },
+            });
+        }
+        v
+    }
     fn strategy(_tier: Tier) -> BoxedStrategy<Case> {
         let wig = params()
             .prop_flat_map(|p| {
